@@ -480,6 +480,7 @@ func (e *Engine) verifyFunctionCase(fn *ssa.Function, ct *Contract, mode Mode, s
 		}
 	}
 	exhaustive := len(sels) == 1 && sels[0].exhaustive
+	var fieldCases []caseSel
 	caseTag := ""
 	allFirst := true
 	for _, sel := range sels {
@@ -494,6 +495,10 @@ func (e *Engine) verifyFunctionCase(fn *ssa.Function, ct *Contract, mode Mode, s
 			logicals[sel.cs.Param] = VInt{Int64C(int64(sel.val))}
 			continue
 		}
+		if strings.Contains(sel.cs.Param, ".") {
+			fieldCases = append(fieldCases, sel)
+			continue
+		}
 		idx := -1
 		for i, p := range fn.Params {
 			if p.Name() == sel.cs.Param {
@@ -504,6 +509,19 @@ func (e *Engine) verifyFunctionCase(fn *ssa.Function, ct *Contract, mode Mode, s
 			return fmt.Errorf("%s: cases: no parameter %s", funcKey(fn), sel.cs.Param)
 		}
 		args[idx] = VInt{Int64C(int64(sel.val))}
+	}
+	// a split on a field of a parameter (cases g.bits 0 7): the field is set in the initial heap
+	for _, sel := range fieldCases {
+		ex, err := parseExprSrc(sel.cs.Param)
+		if err != nil {
+			return err
+		}
+		env := map[string]Value{}
+		for i, p := range fn.Params {
+			env[p.Name()] = args[i]
+		}
+		c := &evalCtx{e: e, s: s, env: env, pkg: fn.Pkg.Pkg}
+		e.store(s, c.evalAddr(ex), VInt{Int64C(int64(sel.val))}, token.NoPos)
 	}
 	e.leafClass = nil
 	if ct.Flags["root"] && fn.Signature.Recv() != nil {
@@ -585,7 +603,16 @@ func (e *Engine) verifyFunctionCase(fn *ssa.Function, ct *Contract, mode Mode, s
 	}
 	if exhaustive {
 		sel := sels[0]
-		p := asInt(fr.params[sel.cs.Param])
+		var p *Term
+		if strings.Contains(sel.cs.Param, ".") {
+			ex, err := parseExprSrc(sel.cs.Param)
+			if err != nil {
+				return err
+			}
+			p = c.intOf(c.eval(ex))
+		} else {
+			p = asInt(fr.params[sel.cs.Param])
+		}
 		e.emit(s, "cases-exhaustive", sel.cs.Param, And(Le(Int64C(int64(sel.cs.Lo)), p), Lt(p, Int64C(int64(sel.cs.Hi)))), fn.Pos(), fmt.Sprintf("precondition implies %d <= %s < %d", sel.cs.Lo, sel.cs.Param, sel.cs.Hi))
 		return nil
 	}
